@@ -21,8 +21,9 @@ def mk_means(name="cen", K=Kk, D=Dd):
     return input_arr(name, (K, D))
 
 
-def mk_data(name="x", N=Nn, D=Dd, kind="numpy", ndim=2):
-    return input_arr(name, (D,) if ndim == 1 else (N, D), kind)
+def mk_data(name="x", N=Nn, D=Dd, kind="numpy", ndim=2, intdata=False):
+    kw = dict(dtype="int", narrow=True) if intdata else {}
+    return input_arr(name, (D,) if ndim == 1 else (N, D), kind, **kw)
 
 
 def two_d(x):
